@@ -217,7 +217,8 @@ func (c *Ctx) TLC(o TLCOpts) (*TLCResult, error) {
 		res.Invariant = m[1]
 	}
 	res.TemporalViolated = strings.Contains(out, "Temporal properties were violated") ||
-		(strings.Contains(out, "Error: Action property") && strings.Contains(out, "is violated"))
+		(strings.Contains(out, "Error: Action property") && strings.Contains(out, "is violated")) ||
+		(strings.Contains(out, "Error: Temporal property") && strings.Contains(out, "violated"))
 	res.Deadlock = strings.Contains(out, "Error: Deadlock reached")
 	res.AssumeFalse = strings.Contains(out, "Error: Assumption") && strings.Contains(out, "is false")
 	res.PostcondFalse = strings.Contains(out, "Error: The postcondition") || strings.Contains(out, "Postcondition")&&strings.Contains(out, "violated")
